@@ -108,9 +108,12 @@ def post(ctx):
                     if go["exc"] == "NotImplementedError" and "sorted roots not supported" in (go.get("msg") or "") \
                             and it.get("params"):
                         keys = keys | {"D21"}     # call site: get_all_roots on a parametric polynomial of degree >= 5
+                    if go["exc"] == "RecursionError" and go.get("where_polar") in ("_solve_rec_by_summing", "solve_rec_by_summing") \
+                            and it.get("params"):
+                        keys = keys | {"D31"}     # call site: symbolic summation with a symbolic parameter
                     run.violation(keys | {f"{it['id']}:{g}", f"goal-refusal:{go['exc']}"},
                                   {"clause": "goal over effective variables refused", "program": it["text"], "goal": g,
-                                   "exception": go["exc"], "message": go.get("msg"), "where": go.get("where")})
+                                   "exception": go["exc"], "message": go.get("msg"), "where": go.get("where"), "where_polar": go.get("where_polar")})
     return {"programs_accepted": accepted, "programs_refused": refused, "goals_refused": goal_refusals,
             "timeouts_not_judged": timeouts}
 
